@@ -281,6 +281,14 @@ func Eq(a, b *Term) *Term {
 		return True
 	}
 	if a.sort != b.sort {
+		// a bit-vector value meeting an Int-encoded one (e.g. a byte produced from an Int-encoded
+		// amount): compare as integers; narrow values are unsigned, 64-bit ones are Go ints
+		if a.sort.K == SBV && b.sort.K == SInt {
+			return Eq(bvAsInt(a), b)
+		}
+		if a.sort.K == SInt && b.sort.K == SBV {
+			return Eq(a, bvAsInt(b))
+		}
 		panic(fmt.Sprintf("eq sort mismatch %v %v (%s / %s)", a.sort, b.sort, a.String(), b.String()))
 	}
 	if a.IsConst() && b.IsConst() {
@@ -322,6 +330,21 @@ func Eq(a, b *Term) *Term {
 		a, b = b, a
 	}
 	return mkApp("=", BoolSort, a, b)
+}
+
+func bvAsInt(t *Term) *Term {
+	w := t.sort.W
+	if t.IsConst() {
+		if w == 64 {
+			return IntConstBig(signedVal(t.c, 64))
+		}
+		return IntConstBig(t.c)
+	}
+	n := BV2Nat(t)
+	if w == 64 {
+		return Ite(IGe(n, IntConstBig(pow2(63))), ISub(n, IntConstBig(pow2(64))), n)
+	}
+	return n
 }
 
 // ---------- bit-vectors ----------
